@@ -184,14 +184,83 @@ def gen_borrow(which):
     return "\n".join(lines) + "\n", cells
 
 
-def cargo_check(dirpath, name, src, env):
+# ---------------------------------------------------------------------------------------------- unsafe stays unsafe
+UNSAFE_PRELUDE = '''#![allow(unused, dead_code, deprecated)]
+use std::mem::MaybeUninit;
+use triomphe::*;
+'''
+# (name, call expression given suitable locals) — every one of these constructs a handle or a borrow
+# from something the caller must vouch for; safe code being able to call it breaks every lifetime /
+# ownership guarantee of C13
+UNSAFE_APIS = [
+    ("Arc::from_raw", "let p: *const u32 = std::ptr::null(); let _a: Arc<u32> = {U} Arc::from_raw(p) {E};"),
+    ("Arc::from_raw (unsized)", "let p: *const [u32] = &[1u32][..]; let _a: Arc<[u32]> = {U} Arc::from_raw(p) {E};"),
+    ("Arc::from_raw_slice", "let p: *const [u32] = &[1u32][..]; let _a: Arc<[u32]> = {U} Arc::from_raw_slice(p) {E};"),
+    ("ArcBorrow::from_ptr", "let p: *const u32 = std::ptr::null(); let _b: ArcBorrow<'static, u32> = {U} ArcBorrow::from_ptr(p) {E};"),
+    ("ThinArc::from_raw", "let p: *const std::ffi::c_void = std::ptr::null(); let _t: ThinArc<u8, u16> = {U} ThinArc::from_raw(p) {E};"),
+    ("Arc<MaybeUninit<T>>::assume_init", "let a: Arc<MaybeUninit<String>> = Arc::new_uninit(); let _s: Arc<String> = {U} a.assume_init() {E};"),
+    ("Arc<[MaybeUninit<T>]>::assume_init", "let a: Arc<[MaybeUninit<String>]> = Arc::new_uninit_slice(2); let _s: Arc<[String]> = {U} a.assume_init() {E};"),
+    ("UniqueArc::assume_init", "let u: UniqueArc<MaybeUninit<String>> = UniqueArc::new_uninit(); let _s: UniqueArc<String> = {U} UniqueArc::assume_init(u) {E};"),
+    ("UniqueArc::assume_init_slice", "let u: UniqueArc<[MaybeUninit<String>]> = UniqueArc::new_uninit_slice(2); let _s: UniqueArc<[String]> = {U} UniqueArc::assume_init_slice(u) {E};"),
+    ("UniqueArc::assume_init_slice_with_header", "let u: UniqueArc<HeaderSlice<u8, [MaybeUninit<String>]>> = UniqueArc::from_header_and_uninit_slice(1u8, 2); let _s: UniqueArc<HeaderSlice<u8, [String]>> = {U} u.assume_init_slice_with_header() {E};"),
+]
+
+
+def gen_unsafe(which):
+    lines = UNSAFE_PRELUDE.rstrip("\n").split("\n")
+    cells = []
+    for i, (name, body) in enumerate(UNSAFE_APIS):
+        b = body.replace("{U}", "unsafe {" if which == "control" else "").replace("{E}", "}" if which == "control" else "")
+        start = len(lines) + 1
+        lines.append("pub fn cell_%d() {" % i)
+        lines.append("    " + b)
+        lines.append("}")
+        cells.append({"name": name, "line_start": start, "line_end": len(lines), "accept": which == "control"})
+    return "\n".join(lines) + "\n", cells
+
+
+# ---------------------------------------------------------------------------------------------- dropck eyepatch (nightly)
+EYEPATCH_SRC = '''#![allow(unused, dead_code)]
+use triomphe::*;
+pub fn touch<T: ?Sized>(_: &T) {}
+pub struct P<'a>(pub &'a String);
+impl<'a> Drop for P<'a> { fn drop(&mut self) { touch(self.0) } }
+'''
+# with the unstable_dropck_eyepatch feature a handle may be declared before data its payload merely
+# borrows (controls), but not if the payload's destructor looks at that data (escapes)
+EYEPATCH = [
+    ("Arc<P> declared before the data P's destructor reads", "let a; let s = String::new(); a = Arc::new(P(&s));", False),
+    ("UniqueArc<P> declared before the data P's destructor reads", "let a; let s = String::new(); a = UniqueArc::new(P(&s));", False),
+    ("Arc<[P]> declared before the data P's destructor reads", "let a: Arc<[P]>; let s = String::new(); a = Arc::from(vec![P(&s)]);", False),
+    ("ThinArc<P,u8> declared before the data P's destructor reads", "let a; let s = String::new(); a = ThinArc::from_header_and_slice(P(&s), &[1u8]);", False),
+    ("OffsetArc<P> declared before the data P's destructor reads", "let a; let s = String::new(); a = Arc::into_raw_offset(Arc::new(P(&s)));", False),
+    ("control: Arc<&String> declared before the data (no destructor looks at it)", "let a; let s = String::new(); a = Arc::new(&s);", True),
+    ("control: Arc<P> declared after the data", "let s = String::new(); let a = Arc::new(P(&s));", True),
+]
+
+
+def gen_eyepatch():
+    lines = EYEPATCH_SRC.rstrip("\n").split("\n")
+    cells = []
+    for i, (name, body, accept) in enumerate(EYEPATCH):
+        start = len(lines) + 1
+        lines.append("pub fn cell_%d() {" % i)
+        lines.append("    " + body)
+        lines.append("}")
+        cells.append({"name": name, "line_start": start, "line_end": len(lines), "accept": accept})
+    return "\n".join(lines) + "\n", cells
+
+
+def cargo_check(dirpath, name, src, env, toolchain=None, features=None):
     os.makedirs(os.path.join(dirpath, "src"), exist_ok=True)
-    open(os.path.join(dirpath, "Cargo.toml"), "w").write('[package]\nname = "%s"\nversion = "0.0.0"\nedition = "2021"\n\n[dependencies]\ntriomphe = { path = "/repo" }\n\n[workspace]\n' % name)
+    dep = 'triomphe = { path = "/repo" }' if not features else 'triomphe = { path = "/repo", features = [%s] }' % ", ".join('"%s"' % f for f in features)
+    open(os.path.join(dirpath, "Cargo.toml"), "w").write('[package]\nname = "%s"\nversion = "0.0.0"\nedition = "2021"\n\n[dependencies]\n%s\n\n[workspace]\n' % (name, dep))
     if os.path.exists("/repo/Cargo.lock") and not os.path.exists(os.path.join(dirpath, "Cargo.lock")):
         # same resolution as the repository itself
         open(os.path.join(dirpath, "Cargo.lock"), "w").write(open("/repo/Cargo.lock").read())
     open(os.path.join(dirpath, "src", "lib.rs"), "w").write(src)
-    p = subprocess.run(["cargo", "check", "--offline", "--message-format=json", "--quiet"], cwd=dirpath, env=env, stdout=subprocess.PIPE, stderr=subprocess.PIPE, text=True)
+    cmd = ["cargo"] + (["+" + toolchain] if toolchain else []) + ["check", "--offline", "--message-format=json", "--quiet"]
+    p = subprocess.run(cmd, cwd=dirpath, env=env, stdout=subprocess.PIPE, stderr=subprocess.PIPE, text=True)
     diags = []
     for l in p.stdout.splitlines():
         try:
@@ -269,4 +338,37 @@ def run(build_dir, env):
         return {"machinery": "probe_control: the positive controls do not compile, the escape probes prove nothing: %s %s" % (diags[:3], err[-800:])}
     evaluations += len(cells)
     detail["control_cells"] = len(cells)
+    # ---- matrix 3: the unsafe constructors stay unsafe (calling one from safe code is E0133), controls compile
+    src, cells = gen_unsafe("bare")
+    rc, diags, err = cargo_check(os.path.join(build_dir, "probe_unsafe"), "probe_unsafe", src, env)
+    per, stray = attribute(cells, diags)
+    other = [d for d in diags if d["code"] != "E0133"]
+    if other or stray:
+        return {"machinery": "probe_unsafe: errors other than E0133: %s %s" % (other[:3], stray[:3])}
+    for i, c in enumerate(cells):
+        evaluations += 1
+        classes.add(("unsafe", c["name"]))
+        if i not in per:
+            violations.append({"code": "unsafe-api-callable-from-safe-code", "case": c["name"], "op": c["name"], "msg": "%s can be called without an unsafe block: safe code can forge handles and borrows" % c["name"]})
+    src, cells = gen_unsafe("control")
+    rc, diags, err = cargo_check(os.path.join(build_dir, "probe_unsafe_control"), "probe_unsafe_control", src, env)
+    if diags or rc != 0:
+        return {"machinery": "probe_unsafe_control does not compile: %s %s" % (diags[:3], err[-600:])}
+    evaluations += len(cells)
+    detail["unsafe_api_cells"] = len(cells)
+    # ---- matrix 4 (nightly, feature unstable_dropck_eyepatch): may_dangle must not let a payload's destructor see dead data
+    src, cells = gen_eyepatch()
+    envn = dict(env, CARGO_TARGET_DIR=env["CARGO_TARGET_DIR"] + "-nightly")
+    rc, diags, err = cargo_check(os.path.join(build_dir, "probe_eyepatch"), "probe_eyepatch", src, envn, toolchain="nightly", features=["unstable_dropck_eyepatch"])
+    per, stray = attribute(cells, diags)
+    other = [d for d in diags if d["code"] not in LIFETIME_CODES]
+    if other or stray or (rc != 0 and not diags):
+        return {"machinery": "probe_eyepatch (nightly): unexpected compiler output: %s %s %s" % (other[:3], stray[:3], err[-600:])}
+    for i, c in enumerate(cells):
+        evaluations += 1
+        classes.add(("eyepatch", c["name"]))
+        rejected = i in per
+        if rejected == c["accept"]:
+            violations.append({"code": "dropck-eyepatch:" + ("wrongly-accepted" if not c["accept"] else "wrongly-rejected"), "case": c["name"], "op": c["name"], "msg": "with the unstable_dropck_eyepatch feature (nightly) the compiler %s: %s" % ("rejects" if rejected else "accepts", c["name"])})
+    detail["eyepatch_cells"] = len(cells)
     return {"evaluations": evaluations, "distinct": len(classes), "violations": violations, "samples": samples, "detail": detail}
